@@ -16,6 +16,13 @@ def mc(module, cfg=None, **kw):
 PROPS = {}
 
 
+def bfs(module, cfg, kind, **kw):
+    """GEN job: TLC enumerates states exhaustively (BFS); every state is written as one driver case {k: kind, in: state}."""
+    d = dict(module=module, cfg=cfg, extra=[], to_case=lambda obj, n: {'c': n, 'k': kind, 'in': obj})
+    d.update(kw)
+    return d
+
+
 def sim(module, cfg, num, depth, kind, field='ops', **kw):
     """GEN job: TLC -simulate writes `num` behaviours; each becomes a driver case {k: kind, in: {field: behaviour}}."""
     d = dict(module=module, cfg=cfg, extra=['-simulate', 'num=%d' % num, '-depth', str(depth), '-seed', '{seed}'],
@@ -166,14 +173,14 @@ PROPS['C17'] = dict(
 
 TPB = dict(module='Trace_PbFrame', cfg='Trace_PbFrame.cfg')
 PROPS['C06'] = dict(
-    trace=TPB, mc=dict(quick=[], thorough=[]), need_kinds=['pb'],
+    trace=TPB, mc=dict(quick=[mc('MC_PbFrame', 'MC_PbFrame_q.cfg', expect_min_distinct=30000)], thorough=[mc('MC_PbFrame', 'MC_PbFrame_t.cfg', expect_min_distinct=5000000, xmx='16g')]), need_kinds=['pb'],
     rule='a case is one stream history: 1-4 frames marshalled back to back (legacy Marshal/Unmarshal messages with and without GetVersion, real protobuf BytesValue/StringValue; bodies of 0,1,2,31,32,33,100,300 and 4000-6000 bytes; '
          'versions of length 0,1,5,9,15,16 incl. embedded and leading NUL and non-ASCII bytes), then Unmarshal of each frame into REUSED destination messages through a scripted reader (whole, 1 byte, fixed and mixed chunk sizes), '
          'ReadHeader on the last frame and a final read at end of stream; every call is one trace event (bytes written, n, error class, version, re-encoded message, bytes consumed) judged by Trace_PbFrame; distinct = distinct histories',
     assumptions=TRUST + ['proto.Marshal/Unmarshal of the message itself is trusted; the message encoding is opaque to the specification', 'the io.Writer/io.Reader obey their contracts'],
 )
 PROPS['C07'] = dict(
-    trace=TPB, mc=dict(quick=[], thorough=[]), need_kinds=['pb'], rlimit_as=24 << 30,
+    trace=TPB, mc=dict(quick=[mc('MC_PbFrame', 'MC_PbFrame_q.cfg', expect_min_distinct=30000)], thorough=[mc('MC_PbFrame', 'MC_PbFrame_t.cfg', expect_min_distinct=5000000, xmx='16g')]), need_kinds=['pb'], rlimit_as=24 << 30,
     rule='fault enumeration through the specification\'s environment actions: for 10 (thorough 60) messages EVERY cut point 0 <= k < len(frame)+8 with EOF and with an injected read error (bodies ~4 KiB: every 97th plus 4 KiB boundaries), '
          'ReadHeader at the cut points, EVERY writer failure point on the header write and on the body write (partial acceptance), the truncated output read back; corrupt headers: header-size in {0,31,33,2^32,2^63,2^64-1,...} and '
          'body-size in {avail-1,avail,avail+1,2^24,2^31,2^40,2^47,2^62,2^63-1,2^63,2^64-1}; arbitrary bytes; random fault schedules over several frames; judged by Trace_PbFrame (outcome relation from io.ReadFull semantics); distinct = distinct histories',
@@ -182,6 +189,7 @@ PROPS['C07'] = dict(
 
 PROPS['C20'] = dict(
     trace=dict(module='Trace_SizeOf', cfg='Trace_SizeOf.cfg'), mc=dict(quick=[], thorough=[]), need_kinds=['size'],
+    gen=dict(quick=[bfs('Gen_SizeOf', 'Gen_SizeOf.cfg', 'size', shards=2)], thorough=[bfs('Gen_SizeOf', 'Gen_SizeOf_t.cfg', 'size', shards=4)]),
     rule='a case is a typed value tree (type + content description) rebuilt with package reflect: every scalar kind (incl. int, uint, uintptr, complex) at top level, in a slice, an array, behind a nil and a non-nil pointer, '
          'in an interface-typed struct field and as a map value; seeded random trees of depth 1..4 (thorough 6): nested slices/arrays/maps/pointers/interfaces/structs, all-scalar structs with mixed field widths, nil and zero-length containers, '
          'maps keyed by ints, strings, structs and arrays, the same pointer stored twice; size.Of and the first line of size.Stat (depth 0 and 3) judged against SizeOf!SizeD; distinct = distinct descriptions, non-trivial = not the nil argument',
